@@ -288,7 +288,7 @@ func (e *engine) mutate(seed []byte, k int) []byte {
 }
 
 func (e *engine) run() {
-	e.rep.Rule = "every network-facing decoder × (valid encodings; bit flips; truncations; extensions; length lies with 2^20..2^62 varints and 0xff runs; random bytes; duplicated chunks; group/unknown wire types); outcome must be ok/err (never panic), allocation of one call ≤ the decoder's configured limit (+ slack) or ≤ 64×input+64 KiB for unframed decoders; model comparison where a Lean model exists; distinct = distinct (decoder, input)"
+	e.rep.Rule = "every network-facing decoder × (valid encodings; bit flips; truncations; extensions; length lies with 2^20..2^62 varints and 0xff runs; 12 boundary 32-bit length prefixes (2^32-1 … 2^32-8, 2^31, 2^31-1, …) in both byte orders; random bytes; duplicated chunks; group/unknown wire types); outcome must be ok/err (never panic), allocation of one call ≤ the decoder's configured limit (+ slack) or ≤ 64×input+64 KiB for unframed decoders; model comparison where a Lean model exists; distinct = distinct (decoder, input)"
 	ds := e.decoders()
 	for _, d := range ds {
 		e.rep.Require("dec." + d.name + ".ok")
@@ -296,10 +296,28 @@ func (e *engine) run() {
 	}
 	n := 40 * e.a.Scale
 	worst := map[string]uint64{}
+	// boundary length prefixes: where an arithmetic slip on the announced length (adding a header
+	// size, signed conversion, rounding up) wraps or changes sign
+	edges := []uint32{0xffffffff, 0xfffffffe, 0xfffffffd, 0xfffffffc, 0xfffffffb, 0xfffffff8, 0xffffff00, 0x80000000, 0x7fffffff, 0x7ffffffc, 0x00010000, 0x0000ffff}
 	for _, d := range ds {
 		seeds := d.seeds(e)
-		for i := 0; i < n; i++ {
-			b := e.mutate(seeds[i%len(seeds)], i)
+		for i := 0; i < n+2*len(edges); i++ {
+			var b []byte
+			if i < n {
+				b = e.mutate(seeds[i%len(seeds)], i)
+			} else {
+				k := i - n
+				b = append([]byte(nil), seeds[k%len(seeds)]...)
+				for len(b) < 8 {
+					b = append(b, 0)
+				}
+				v := edges[k/2]
+				if k%2 == 0 {
+					b[0], b[1], b[2], b[3] = byte(v), byte(v>>8), byte(v>>16), byte(v>>24)
+				} else {
+					b[0], b[1], b[2], b[3] = byte(v>>24), byte(v>>16), byte(v>>8), byte(v)
+				}
+			}
 			out, alloc := measure(func() string { return d.run(b) })
 			limit0 := d.limit
 			if d.flat {
